@@ -24,6 +24,9 @@ class Child:
             from vlib import build
             build.engine_path("san")
             env["LD_PRELOAD"] = build.asan_runtime()
+            # Python's small-object allocator would hide the buffers (ctypes arrays) that the engine writes its results
+            # into: with the system allocator every one of them is an ASan-tracked heap block with red zones
+            env["PYTHONMALLOC"] = "malloc"
             env["ASAN_OPTIONS"] = "detect_leaks=0:abort_on_error=1:halt_on_error=1:allocator_may_return_null=1"
             env["UBSAN_OPTIONS"] = "halt_on_error=1:print_stacktrace=1:abort_on_error=1"
         os.makedirs(os.path.join(VERIF, ".work"), exist_ok=True)
